@@ -111,6 +111,8 @@ pub fn check_text(check: &str, text: &str, st: &mut Stats) -> Vec<Violation> {
     }
     let mut union: Vec<BTreeSet<i32>> = vec![BTreeSet::new(); pats.len()];
     let mut per_item_count: Vec<BTreeMap<usize, usize>> = vec![BTreeMap::new(); pats.len()];
+    // per item and detector: the lines found when the item is analysed alone (for the permutation relation)
+    let mut alone: BTreeMap<usize, Vec<BTreeSet<i32>>> = BTreeMap::new();
     for &i in &items {
         let blanked = blank_except(text, &sp, i);
         if crate::parse(&blanked).is_none() {
@@ -124,6 +126,7 @@ pub fn check_text(check: &str, text: &str, st: &mut Stats) -> Vec<Violation> {
                     if !l.is_empty() {
                         per_item_count[pi].insert(i, l.len());
                     }
+                    alone.entry(i).or_insert_with(|| vec![BTreeSet::new(); pats.len()])[pi] = l.clone();
                     union[pi].extend(l);
                 }
                 Err(site) => {
@@ -152,6 +155,61 @@ pub fn check_text(check: &str, text: &str, st: &mut Stats) -> Vec<Violation> {
     }
     if constructors >= 2 {
         st.count("files_with_constructors_in_two_items");
+    }
+    // second relation: reordering the items moves each item's findings with it and changes nothing else
+    let first_item = items[0];
+    let header_ok = sp[..first_item].iter().all(|s| s.pragma) && sp[first_item..].iter().all(|s| !s.pragma);
+    let line_starts_ok = items.iter().all(|&i| sp[i].start == 0 || text.as_bytes()[sp[i].start - 1] == b'\n');
+    if header_ok && line_starts_ok && text.ends_with('\n') {
+        let header = &text[..sp[first_item].start];
+        let header_lines = header.matches('\n').count() as i32;
+        let first_line = |i: usize| crate::line_of(text, sp[i].start);
+        for variant in 0..2 {
+            let mut order: Vec<usize> = items.clone();
+            if variant == 0 {
+                order.reverse();
+            } else {
+                order.rotate_left(1);
+            }
+            if order == items {
+                continue;
+            }
+            let mut new_text = header.to_string();
+            let mut new_first: BTreeMap<usize, i32> = BTreeMap::new();
+            for &i in &order {
+                new_first.insert(i, 1 + new_text.matches('\n').count() as i32);
+                new_text.push_str(&text[sp[i].start..sp[i].end]);
+            }
+            if crate::parse(&new_text).is_none() {
+                st.count("permuted_file_not_parseable");
+                continue;
+            }
+            st.count("permutations_checked");
+            for (pi, p) in pats.iter().enumerate() {
+                st.evaluations += 1;
+                let got = match catch(|| p.analyze(&new_text, 0)) {
+                    Ok(g) => g,
+                    Err(site) => return vec![Violation::new(check, format!("panic-after-reordering:{}:{site}", p.name), format!("{} panics after the items were reordered", p.name), json!({"text": new_text}))],
+                };
+                let mut expected: BTreeSet<i32> = whole[pi].iter().copied().filter(|l| *l <= header_lines).collect();
+                for &i in &items {
+                    let (lo, hi) = (first_line(i), crate::line_of(text, sp[i].end.saturating_sub(1)));
+                    if let Some(a) = alone.get(&i) {
+                        for l in a[pi].iter().filter(|l| **l > header_lines && **l >= lo && **l <= hi) {
+                            expected.insert(l - lo + new_first[&i]);
+                        }
+                    }
+                }
+                if got != expected {
+                    return vec![Violation::new(
+                        check,
+                        format!("reordering-items-changes-findings:{}", p.name),
+                        format!("{}: after reordering the top-level items the file reports {:?}; each item's own findings moved with it give {:?}", p.name, got, expected),
+                        json!({"text": text, "reordered": new_text, "pattern": p.name}),
+                    )];
+                }
+            }
+        }
     }
     vec![]
 }
